@@ -556,6 +556,19 @@ def knob_sets(ctx):
     ]
 
 
+# fixed witnesses (tree grammar, so model, spec and reference all run them)
+FIXED_SETS = [
+    # a <%call> executed inside `caller.body()` while another call with content is collecting its arguments
+    # (F-C05-1, repaired by 555117c: the inner tag must put the pending caller back, not None)
+    ("nested-call-in-arguments",
+     [[["def", 1, [1], G.FL(), [["text", "["], ["expr", ["caller", 0, []], []], ["text", "]"]]],
+       ["def", 2, [], G.FL(), [["call", ["call", 1, [["caller", 0, []]]], [], [["text", "inner"], ["expr", ["boom"], []]]]]],
+       ["call", ["call", 2, []], [],
+        [["call", ["call", 1, [["lit", "p"]]], [], [["text", "z"], ["expr", ["boom"], []]]], ["expr", ["probe"], []]]],
+       ["expr", ["probe"], []]]]),
+]
+
+
 def run(ctx):
     pending = []
     sets = []
@@ -578,6 +591,13 @@ def run(ctx):
                     sets.append((bodies, impl))
                 ctx.branch("stream:" + name)
             ctx.log("oracle %s: %d sets so far, %d cases, %d violations" % (name, n, st_o["cases"], len(ctx.violations)))
+        for name, bodies in FIXED_SETS:
+            impl = run_set(ctx, copy.deepcopy(bodies), st_o, st_b, st_s, pending, "fixed:" + name)
+            ctx.branch("fixed:" + name)
+            if impl is not None:
+                sets.append((bodies, impl))
+            else:
+                ctx.broke("oracle.fixed:" + name, "fixed witness does not compile")
         handwritten(ctx)
         if sets:
             b0 = sets[0][0]
